@@ -10,7 +10,7 @@ func checkC02(c *Ctx) {
 	c.Rule("C02.1", "event grammar table: per (first byte, running status) cell the bytes consumed after the first byte, the message built and the running status afterwards equal SMF 1.0 (8n,9n,An,Bn,En: 2 data; Cn,Dn: 1; F0/F7: VLQ L then L bytes; FF: type, VLQ L, L bytes; running status: first byte is data 1); unknown meta types pass through; end-of-track bookkeeping", 5)
 	c.Rule("C02.2", "running-status table: cleared by exactly FF/F0/F7, set by exactly 80-EF, kept otherwise", 1)
 	c.Rule("C02.3", "header semantics: formats {0,1,2}; bit 15 of division selects time code; metric = bits 0-14; fps = two's-complement negation of the high byte; subframes = low byte", 1)
-	c.Rule("C02.4", "alien chunks skipped by length: MTrk starts a track after 8 bytes; every other type is skipped by exactly the declared 32-bit length, fill-or-fail, then another chunk header is expected", 3)
+	c.Rule("C02.4", "alien chunks skipped by length: whole-file simulation of ReadFrom — an unknown chunk of any declared length before the first track, one named MTrK and two in a row between the tracks; the call succeeds and returns exactly the two tracks with their events and deltas", 1)
 	c.Rule("C02.7", "no reachable panic in the event decoder for any (first byte, running status) cell", 5)
 	c.Rule("C02.8", "VLQ decoding: value = concatenation of the 7-bit groups for 1..5-byte encodings incl. non-minimal ones; truncated quantity is an error", 6)
 	if p.Func("smf", "ReadFrom") == nil {
@@ -20,8 +20,7 @@ func checkC02(c *Ctx) {
 	ruleEventDecode(c, "C02.1", "C02.7")
 	ruleRSReader(c, "C02.2")
 	ruleHeaderRead(c, "C02.3", "")
-	ruleAlienChunks(c, "C02.4")
-	ruleChunkLoop(c, "C02.4")
+	runReadFromSim(c, "C02.4", "")
 	ruleVLQ(c, "", "C02.8", "")
 	c.Rule("C02.9", "every decoded event reaches the caller: the decoded delta goes to Track.Add/Close and Track.Add stores any event bytes it is given (incomplete sysex, F7 packets, any meta) unchanged (= C01.7)", 5)
 	c.include(checkC01, map[string]string{"C01.7": "C02.9"})
